@@ -96,20 +96,26 @@ func (in *Inst) Close() {
 
 // Transact executes the operations the way the server does: Transact, then
 // Commit unless a result carries an error.
-func (in *Inst) Transact(ops []ovsdb.Operation) ([]*ovsdb.OperationResult, error) {
+func (in *Inst) Transact(ops []ovsdb.Operation) (results []*ovsdb.OperationResult, err error) {
 	name := in.Ctx.Abs.Name
 	if in.Srv == nil {
+		// a panic of the engine is an outcome to be judged, not a harness failure
+		defer func() {
+			if r := recover(); r != nil {
+				results, err = nil, fmt.Errorf("panic: %v", r)
+			}
+		}()
 		tx := in.DB.NewTransaction(name)
-		results, upd := tx.Transact(ops...)
-		for _, r := range results {
+		res, upd := tx.Transact(ops...)
+		for _, r := range res {
 			if r != nil && r.Error != "" {
-				return results, nil
+				return res, nil
 			}
 		}
-		if err := in.DB.Commit(name, uuid.New(), upd); err != nil {
-			return results, fmt.Errorf("commit: %v", err)
+		if cerr := in.DB.Commit(name, uuid.New(), upd); cerr != nil {
+			return res, fmt.Errorf("commit: %v", cerr)
 		}
-		return results, nil
+		return res, nil
 	}
 	params := []interface{}{name}
 	for _, o := range ops {
@@ -119,7 +125,6 @@ func (in *Inst) Transact(ops []ovsdb.Operation) ([]*ovsdb.OperationResult, error
 	if err != nil {
 		return nil, err
 	}
-	var results []*ovsdb.OperationResult
 	if err := json.Unmarshal(raw, &results); err != nil {
 		return nil, fmt.Errorf("transact reply does not decode: %v: %s", err, string(raw))
 	}
